@@ -417,6 +417,11 @@ class SI(SF):
     def __round__(self, n=None):
         return self
 
+    @property
+    def days(self):
+        """dates are day ordinals in the clock harnesses: a difference of two dates is its own number of days"""
+        return self
+
     def __int__(self):
         raise Abort("int() of a symbolic int (concretisation)")
 
@@ -811,12 +816,31 @@ def true_value(kind, x):
 
 # --------------------------------------------------------------------------- arrays
 class SArr:
-    """1-D array of floats / SF with the slice of the numpy API the model uses."""
+    """1-D array of floats / SF with the slice of the numpy API the model uses. Basic slices are *views* (writes go to the
+    parent's storage, as in numpy); mask / integer-array indexing gives copies."""
 
-    def __init__(self, items):
+    def __init__(self, items, _store=None, _ix=None):
+        if _store is not None:
+            self._s = _store
+            self._ix = _ix
+            return
         if isinstance(items, SArr):
             items = items.v
-        self.v = [x.item() if isinstance(x, _np.generic) else x for x in items]
+        self._s = [x.item() if isinstance(x, _np.generic) else x for x in items]
+        self._ix = None
+
+    @property
+    def v(self):
+        return self._s if self._ix is None else [self._s[i] for i in self._ix]
+
+    def _pos(self, k):
+        k = int(k)
+        n = len(self)
+        if k < 0:
+            k += n
+        if not (0 <= k < n):
+            raise IndexError(f"index {k} is out of bounds for axis 0 with size {n}")
+        return k if self._ix is None else self._ix[k]
 
     @property
     def shape(self): return (len(self.v),)
@@ -824,16 +848,17 @@ class SArr:
     def ndim(self): return 1
     @property
     def size(self): return len(self.v)
-    def __len__(self): return len(self.v)
+    def __len__(self): return len(self._s) if self._ix is None else len(self._ix)
     def __iter__(self): return iter(self.v)
 
     def __getitem__(self, i):
         if isinstance(i, SF):
             raise Abort("symbolic index")
         if isinstance(i, (int, _np.integer)):
-            return self.v[int(i)]
+            return self._s[self._pos(i)]
         if isinstance(i, slice):
-            return SArr(self.v[i])
+            base = list(builtins.range(len(self._s))) if self._ix is None else self._ix
+            return SArr(None, _store=self._s, _ix=base[i])
         if isinstance(i, (_np.ndarray, list, SArr)):
             li = list(i)
             if any(isinstance(x, SB) for x in li):
@@ -850,10 +875,10 @@ class SArr:
         if isinstance(val, _np.generic):
             val = val.item()
         if isinstance(i, (int, _np.integer)):
-            self.v[int(i)] = val
+            self._s[self._pos(i)] = val
             return
         if isinstance(i, slice):
-            idxs = list(builtins.range(*i.indices(len(self.v))))
+            idxs = list(builtins.range(*i.indices(len(self))))
         elif isinstance(i, (_np.ndarray, list, SArr)):
             li = list(i)
             if any(isinstance(x, SB) for x in li):
@@ -868,7 +893,7 @@ class SArr:
         else:
             vals = [val] * len(idxs)
         for k, x in zip(idxs, vals):
-            self.v[k] = x.item() if isinstance(x, _np.generic) else x
+            self._s[self._pos(k)] = x.item() if isinstance(x, _np.generic) else x
 
     def _bin(self, o, f):
         if isinstance(o, (SArr, _np.ndarray, list)) and not (isinstance(o, _np.ndarray) and o.ndim == 0):
